@@ -210,8 +210,14 @@ def axis_case(draw):
     tg = ranged_targets()
     # the kinds of range are mixed within one fan-out (compact, negative minimum, no-offset, span 32768, ordinary)
     classes = {}
+    spec_all = specmodel.load()
+    for name_, mt_ in sorted(spec_all.items()):
+        for c_ in mt_.controllers:
+            if c_.kind == "dependent":
+                for unit_, (lo_, hi_) in sorted(c_.ranges.items()):
+                    tg.append((name_, c_.name, c_.number, "dependent", lo_, hi_, c_.depends_on, unit_))
     for t in tg:
-        k = "compact" if t[3] == "compact" else "no_offset" if t[3] == "no_offset" else "negmin" if t[4] < 0 else "span32768" if t[5] - t[4] == 32768 else "ordinary"
+        k = "dependent" if t[3] == "dependent" else "compact" if t[3] == "compact" else "no_offset" if t[3] == "no_offset" else "negmin" if t[4] < 0 else "span32768" if t[5] - t[4] == 32768 else "ordinary"
         classes.setdefault(k, []).append(t)
     n = draw(st.integers(1, 4))
     targets = []
@@ -222,6 +228,8 @@ def axis_case(draw):
         a = draw(vs.edge_int(0, hi, extra=(1, hi - 1, hi // 2)))
         b = draw(vs.edge_int(0, hi, extra=(1, hi - 1, hi // 2, a, min(hi, a + 1))))
         targets.append({"type": t[0], "ctl": t[1], "number": t[2], "kind": t[3], "min": t[4], "max": t[5], "window": [a, b]})
+        if t[3] == "dependent":
+            targets[-1]["unit"] = [t[6], t[7]]
     return {
         "targets": targets,
         "gain": draw(vs.edge_int(0, 1024, extra=(255, 256, 257, 512))),
@@ -250,6 +258,9 @@ def run_axis_case(ctx, case, stride=1):
         mappings.append((0, 0x8000, 1, 0, 0, 0, 0, 0))
     for t in case["targets"]:
         mods.append(p.new_module(cls_of(t["type"])))
+        if t.get("unit"):
+            # a controller whose declared range depends on a unit: the unit is chosen first
+            setattr(mods[-1], t["unit"][0], getattr(cls_of(t["type"]).controllers[t["unit"][0]].value_type, t["unit"][1]))
         mappings.append((t["window"][0], t["window"][1], t["number"], 0, 0, 0, 0, 0))
     bystander = None
     if case["unset_link"]:
@@ -271,6 +282,7 @@ def run_axis_case(ctx, case, stride=1):
     by_snapshot = dict(bystander.controller_values) if bystander else None
     prev = [None] * len(mods)
     ctlnames = [t["ctl"] for t in case["targets"]]
+    initial = [mods[i].controller_values[ctlnames[i]] for i in range(len(mods))]
     for v in (case.get("inputs") or range(0, 32769, stride)):
         try:
             mc.value = v
@@ -278,8 +290,10 @@ def run_axis_case(ctx, case, stride=1):
             raise PropertyViolation("C20.propagate.no_exception", "value=%d with %r raised %s: %s" % (v, {k: case[k] for k in ("gain", "quantization")}, type(e).__name__, e))
         for i, t in enumerate(case["targets"]):
             got = mods[i].controller_values[ctlnames[i]]
+            if t["kind"] == "dependent" and got == initial[i]:
+                continue  # nothing was delivered to this target (allowed: the property bounds what is delivered)
             if not (t["min"] <= got <= t["max"]) or not isinstance(got, int):
-                raise PropertyViolation("C20.propagate.in_range", "input %d delivers %r to %s.%s, range [%d,%d]" % (v, got, t["type"], t["ctl"], t["min"], t["max"]))
+                raise PropertyViolation("C20.propagate.in_range", "input %d delivers %r to %s.%s%s, range [%d,%d]" % (v, got, t["type"], t["ctl"], " (unit %s)" % t["unit"][1] if t.get("unit") else "", t["min"], t["max"]))
             pv = prev[i]
             if pv is not None:
                 a, b = t["window"]
@@ -306,6 +320,8 @@ def run_axis_case(ctx, case, stride=1):
             for i, t in enumerate(case["targets"]):
                 got = mods[i].controller_values[ctlnames[i]]
                 mp = mc.mappings.values[(1 if ghost is not None else 0) + i]
+                if t["kind"] == "dependent":
+                    continue
                 if not (t["min"] <= got <= t["max"]) or not isinstance(got, int):
                     raise PropertyViolation("C20.propagate.in_range", "second configuration: input %d delivers %r to %s.%s, range [%d,%d]" % (v, got, t["type"], t["ctl"], t["min"], t["max"]))
                 pv = prev2[i]
@@ -324,6 +340,8 @@ def run_axis_case(ctx, case, stride=1):
         labels.add("axis_normal" if t["window"][0] <= t["window"][1] else "axis_reversed")
         if t["kind"] == "compact":
             labels.add("compact_target")
+        if t["kind"] == "dependent":
+            labels.add("unit_dependent_target")
         if t["min"] < 0:
             labels.add("negative_min_target")
     if case["unset_link"]:
@@ -380,6 +398,8 @@ def run_chain_case(ctx, case):
         b_in = mc.value
         mc2.value = b_in
         for i, t in enumerate(case["targets"]):
+            if t["kind"] == "dependent":
+                continue
             got, want = mods[i].controller_values[names[i]], mods2[i].controller_values[names[i]]
             if not (t["min"] <= got <= t["max"]):
                 raise PropertyViolation("C20.chain.in_range", "driver input %d -> MultiCtl input %d delivers %r to %s.%s, range [%d,%d]" % (v, b_in, got, t["type"], t["ctl"], t["min"], t["max"]))
